@@ -517,6 +517,23 @@ def func_traces(rng, dataA, layout, tag):
         Xl, x2 = lay(X, l), lay(X[:, :2] + 1.0, l)
         return (lambda: X_orthogonalizer(Xl, x2=x2, copy=True)), {"x1": Xl, "x2": x2}
     pure("X_orthogonalizer(x2,copy=True)", xo2)
+    from skmatter.utils import effdim, oas, pcovr_covariance, pcovr_kernel
+
+    def pcc(l):
+        Xl, Yl = lay(X, l), lay(Y2, l)
+        return (lambda: pcovr_covariance(0.5, Xl, Yl)), {"X": Xl, "Y": Yl}
+    pure("pcovr_covariance", pcc)
+
+    def pck(l):
+        Xl, Yl = lay(X, l), lay(Y2, l)
+        return (lambda: pcovr_kernel(0.5, Xl, Yl)), {"X": Xl, "Y": Yl}
+    pure("pcovr_kernel", pck)
+
+    def shr(l):
+        Cl = lay(np.cov(X[:, :3].T), l)
+        return (lambda: [oas(Cl, 7.5, 3), np.array([effdim(Cl)])]), {"cov": Cl}
+    pure("oas+effdim", shr)
+
     def yfo(l):
         yl, Xl = lay(Y2, l), lay(X[:, :3], l)
         return (lambda: Y_feature_orthogonalizer(yl, Xl, copy=True)), {"y": yl, "X": Xl}
@@ -566,7 +583,8 @@ def uncovered():
                "sample_selection.PCovCUR", "sample_selection.VoronoiFPS", "sample_selection.DirectionalConvexHull", "linear_model.Ridge2FoldCV",
                "linear_model.OrthogonalRegression", "neighbors.SparseKDE", "preprocessing.StandardFlexibleScaler", "preprocessing.KernelNormalizer",
                "preprocessing.SparseKernelCenterer", "model_selection.train_test_split", "utils.X_orthogonalizer", "utils.Y_feature_orthogonalizer",
-               "utils.Y_sample_orthogonalizer"}
+               "utils.Y_sample_orthogonalizer", "utils.pcovr_covariance", "utils.pcovr_kernel", "decomposition.pcovr_covariance",
+               "decomposition.pcovr_kernel", "utils.oas", "utils.effdim"}
     covered |= {"metrics." + n for n in ("pointwise_global_reconstruction_error", "global_reconstruction_error", "pointwise_global_reconstruction_distortion",
                                          "global_reconstruction_distortion", "pointwise_local_reconstruction_error", "local_reconstruction_error",
                                          "local_prediction_rigidity", "componentwise_prediction_rigidity", "periodic_pairwise_euclidean_distances",
